@@ -258,6 +258,11 @@ func snapsimPlan() plan {
 			if name == "fidelity" {
 				return phase{Name: "fidelity"}, true
 			}
+			if name == "explore-race-build" {
+				p := snapsimPhases(tier)["explore"]
+				p.Name, p.Build = name, "snapsim-race"
+				return p, true
+			}
 			p, ok := snapsimPhases(tier)[name]
 			return p, ok
 		},
@@ -306,9 +311,23 @@ func snapsimPlan() plan {
 			}
 			// goroutines inside the snapping packages? (none in the pinned tree)
 			explorePh := phs["explore"]
-			if snapHasGoroutines(c.rc.info) {
+			concurrent := snapHasGoroutines(c.rc.info)
+			if concurrent {
 				explorePh.Extra = map[string]string{"concurrent": "1"}
-				c.extraCov["snapping_code_starts_goroutines"] = "yes: every input is also snapped under three seeded schedules (oracle 6)"
+				c.extraCov["snapping_code_starts_goroutines"] = "yes: every input is also snapped under three seeded schedules (oracle 6), a -race build runs the same inputs, and replays of unscheduled calls are attempted repeatedly"
+				c.rc.flaky = true
+				// unsynchronised sharing between those goroutines makes the result a matter of
+				// timing; the race detector finds it without timing luck
+				if _, err := ensureBuild([]string{"snapsim-race"}); err != nil {
+					die2("%v", err)
+				}
+				racePh := explorePh
+				racePh.Name, racePh.Build, racePh.BudgetS, racePh.SeedOffset = "explore-race-build", "snapsim-race", explorePh.BudgetS/2, 400_000_000
+				outs, bad := runTimed(c, racePh)
+				agg.add(outs)
+				if bad {
+					return finish(1)
+				}
 			}
 			outs, bad := runTimed(c, explorePh)
 			agg.add(outs)
